@@ -43,6 +43,16 @@ METHODS = {
     "readdiscinformation": ([0], {}, 0x51, 10, (7, 2)),
     "raw_execute": ([], {}, 0x00, 6, None),       # s.execute(TestUnitReady(...))
 }
+# the same kind of request with OTHER arguments (issued by somebody else while a call is with the device)
+ALT_ARGS = {
+    "readcd": ([500, 1], {"est": 2, "mcsb": 0x17}),
+    "read10": ([99, 2], {}), "read16": ([2 ** 34, 3], {}), "read10_tl0": ([5, 1], {}), "read16_tl0": ([5, 1], {}),
+    "getlbastatus": ([77], {"alloclen": 24}), "inquiry": ([], {"evpd": 1, "page_code": 0x83, "alloclen": 32}),
+    "inquiry_vpd": ([], {}), "reportluns": ([], {"alloclen": 32}), "reportluns_small": ([], {}),
+    "modesense6": ([0x1C], {"alloclen": 24}), "modesense10": ([0x1C], {"alloclen": 24}),
+    "readcapacity16": ([], {"alloclen": 12}), "reporttargetportgroups": ([], {"alloclen": 16}), "reportpriority": ([], {"alloclen": 16}),
+    "readdiscinformation": ([1], {}), "atapassthrough16": ([4, 2, 1, 1, 0, 0, 0, 2, 0, 0xEC], {}), "atapassthrough12": ([4, 2, 1, 1, 0, 0, 0, 2, 0, 0xEC], {}),
+}
 REAL = {"inquiry_vpd": "inquiry", "reportluns_small": "reportluns", "read10_tl0": "read10", "read16_tl0": "read16"}
 OUTCOMES = ["good", "cc5", "cc6", "cc6b", "cc2", "busy", "oserror", "conflict"]
 SENSE = {"cc5": (5, 0x24, 0x00), "cc6": (6, 0x29, 0x00), "cc6b": (6, 0x2A, 0x01), "cc2": (2, 0x04, 0x01)}
@@ -118,7 +128,25 @@ def impl_main():
     open(node, "wb").close()
     state = dict(outcomes=[], fill=None, execs=[])
 
+    def reenter():
+        """while the command is with the device, the library is used for ANOTHER request (an error-recovery wrapper, a monitoring hook, another
+        thread): another facade over another device object issues the same kind of command with other arguments"""
+        fn = state.get("reenter")
+        if fn is None or state.get("nested"):
+            return
+        state["nested"] = True
+        keep = (state["outcomes"], state["execs"])
+        state["outcomes"], state["execs"] = [], []
+        try:
+            fn()
+        except Exception:  # noqa
+            pass
+        finally:
+            state["outcomes"], state["execs"] = keep
+            state["nested"] = False
+
     def sg_target(cdb, dout, din):
+        reenter()
         state["execs"].append(dict(op=cdb[0], cdb=list(cdb), in_len=len(din) if din is not None else None,
                                    out_len=len(dout) if dout is not None else None))
         o = state["outcomes"].pop(0) if state["outcomes"] else "good"
@@ -134,6 +162,7 @@ def impl_main():
         return ("raise", sgio.UnspecifiedError(o))
 
     def is_target(cdb, dout, din):
+        reenter()
         state["execs"].append(dict(op=cdb[0], cdb=list(cdb), in_len=len(din) if din is not None else None,
                                    out_len=len(dout) if dout is not None else None))
         o = state["outcomes"].pop(0) if state["outcomes"] else "good"
@@ -163,6 +192,12 @@ def impl_main():
         state["fill"] = lambda n, k=k, kind=st["fill"]: fill_bytes(st["seed"], n, kind)
         state["execs"] = []
         dev.opcodes = mmc if st["m"] in ("readcd", "readdiscinformation") else sbc
+        state["reenter"] = None
+        if st.get("reenter") and st["m"] != "raw_execute":
+            s_o, dev_o = fresh(hist_t[0])
+            dev_o.opcodes = dev.opcodes
+            a2, k2 = ALT_ARGS.get(st["m"], (args, kw))
+            state["reenter"] = lambda: getattr(s_o, REAL.get(st["m"], st["m"]))(*a2, **k2)
         r = dict()
         signal.setitimer(signal.ITIMER_REAL, 5.0)
         try:
@@ -200,9 +235,11 @@ def impl_main():
         return r
 
     out = []
+    hist_t = ["sg"]
     try:
         sgio.DEVICE, iscsi.DEVICE = sg_target, is_target
         for hist in json.load(sys.stdin):
+            hist_t[0] = hist["t"]
             s, dev = fresh(hist["t"])
             res = []
             for k, st in enumerate(hist["steps"]):
@@ -250,6 +287,12 @@ def gen_hists(seed, count):
         for m in names:
             hists.append(dict(t=t, steps=[dict(m=m, outcomes=["ccnone", "good", "good"], fill="zeros", seed=1),
                                           dict(m=rng.choice(names), outcomes=["good", "good"], fill="random", seed=rng.randrange(1 << 30))]))
+    # a call during which the library serves another request of the same kind with other arguments (re-entrancy): the outer call still
+    # sends its own command once and decodes its own buffer with its own arguments
+    for t in ("sg", "iscsi"):
+        for m in names:
+            hists.append(dict(t=t, steps=[dict(m=m, outcomes=["good", "good"], fill="random", seed=rng.randrange(1 << 30), reenter=True),
+                                          dict(m=m, outcomes=["good", "good"], fill="random", seed=rng.randrange(1 << 30))]))
     fam = ["readcapacity16", "getlbastatus", "reporttargetportgroups", "reportpriority"]
     for t in ("sg", "iscsi"):
         for a in fam:
@@ -279,8 +322,9 @@ def oracle_step(t, st, r, aspects):
         ata = st["m"] in ("atapassthrough12", "atapassthrough16")
         if o[0] == "return" and first != "good":
             # the ATA PASS-THROUGH methods ask for raw sense: over SG_IO a CHECK CONDITION then comes back attached to the command
-            # (and when the binding has no sense data to give there is nothing to attach: outside the contract of §6, not judged)
-            if not (ata and ((is_cc(first) and r.get("raw_sense")) or first == "ccnone")):
+            # (over SG_IO a binding that has no sense data to give is outside the contract of §6 — CheckConditionError always carries bytes —
+            # and not judged; over iSCSI a task without the attribute is a case ISCSIDevice.execute itself provides for, and is judged)
+            if not (ata and ((is_cc(first) and r.get("raw_sense")) or (first == "ccnone" and t == "sg"))):
                 return "status", "%s returned normally although the target answered %s" % (st["m"], first)
         status_errors = ("BusyStatus", "ReservationConflict", "TaskSetFull", "ACAActive", "TaskAborted", "ConditionsMet", "UnspecifiedError",
                          "OSError", "CheckConditionError")
